@@ -154,13 +154,13 @@ func (c *Ctx) finish() {
 
 // SchedOpts configures ExploreSched.
 type SchedOpts struct {
-	Delay     bool // deviation bounding (else preemption bounding)
-	Budgets   []int
-	MaxEnv    int
-	MaxSteps  int
-	NoCache   bool
-	Shards    int // total shards for this scenario (unit runs shard ShardI)
-	ShardI    int
+	Delay      bool // deviation bounding (else preemption bounding)
+	Budgets    []int
+	MaxEnv     int
+	MaxSteps   int
+	NoCache    bool
+	Shards     int // total shards for this scenario (unit runs shard ShardI)
+	ShardI     int
 	ShardDepth int
 	// Outcome classifies the last execution (called after each completed run)
 	Outcome func() string
